@@ -683,6 +683,33 @@ def tmpl_label_table(rng):
     return prog
 
 
+def tmpl_zoo(rng, allow_input=True):
+    """A long, mostly straight-line program that shows MANY different command forms to one run (and one compilation):
+    every command type with 1-6 syllables, 0-12 dots, areas of every shape over all twelve hearts.  Values are kept
+    flowing by pushes in between; hearts are spread so that most evaluations only register a label."""
+    prog = [(0, 1, rng.choice([0, 1, 2, 3, 5, 9, 65, 66]), None) for _ in range(rng.randint(6, 14))]
+    n = rng.randint(30, 90)
+    hearts = list(range(2, 13))
+    for k in range(n):
+        r = rng.random()
+        if r < 0.35:
+            prog.append((0, rng.choice([1, 1, 2, 3]), rng.choice([0, 1, 2, 3, 4, 7, 11, 65]), None))
+            continue
+        t = rng.choice([0, 1, 1, 2, 2, 3, 3, 4, 4, 5, 5])
+        h = rng.choice([1, 1, 2, 2, 3, 4, 5, 6])
+        d = rng.choice([3, 3, 3, 4, 5, 6, 7, 8, 9, 10, 12, 1, 2] + ([0] if allow_input else []))
+        if t == 5 and d in (1, 2):
+            d = rng.choice([3, 4, 5])                      # selecting an output stack would end the show at the next pop
+        if t == 5 and d == 0 and rng.random() < 0.7:
+            d = 4
+        a = rand_area(rng, [hearts[(k + j) % 11] for j in range(3)], p_none=0.45, p_more_q=0.5, p_more_b=0.4, p_slot_none=0.5, maxq=3, maxb=3)
+        prog.append((t, h, d, a))
+        if t == 5 and d != 3 and rng.random() < 0.8:
+            # come back to stack 3, where the values are (carrying a value along)
+            prog.append((5, 1, 3, None))
+    return prog
+
+
 def tmpl_big_fraction_output(rng):
     """Non-integers with very long terms but a small integer part (c + 1/b^e, c - 1/b^e, their negatives) are written
     to stdout / stderr: a positive one must appear as the character of its floor, a negative one as decimal text."""
@@ -710,7 +737,7 @@ def tmpl_first_command_source(rng):
     for _ in range(40):
         d0 = rng.choice([3, 4, 5, 6])
         dr = rng.choice([4, 5, 7])
-        kA, kB = rng.sample([1, 2, 3, 4, 5, 6, 7, 8, 9, 10, 11, 12], 2)
+        kA, kB = rng.sample([2, 3, 4, 5, 6, 7, 8, 9, 10, 11, 12], 2)
         op0, opm, opj, opr = [rng.choice(['?', '?', '!']) for _ in range(4)]
 
         def val(op, truth, count):
@@ -756,7 +783,7 @@ def tmpl_abandoned_return(rng):
 
 def _abandoned_return_once(rng):
     pr1, pr2, pr3 = rng.sample([4, 5, 6, 7, 8], 3)
-    k1, k2 = rng.sample([1, 2, 3, 4, 5, 6, 7, 8, 9, 10, 11, 12], 2)
+    k1, k2 = rng.sample([2, 3, 4, 5, 6, 7, 8, 9, 10, 11, 12], 2)
     big = 9
     x = lambda: rng.choice([0, 1, 2, 3, 9, 12])
     A = [(0, 1, 65, None), (1, 1, 1, None)] if rng.random() < 0.8 else []
@@ -794,7 +821,7 @@ def tmpl_two_labels(rng):
     for _ in range(600):
         c = rng.choice([4, 5, 6, 8])
         pr = rng.choice([x for x in (4, 5, 6, 7) if x != c])
-        k1, k2, kl = rng.sample([1, 2, 3, 4, 5, 6, 7, 8, 9, 10, 11, 12], 3)
+        k1, k2, kl = rng.sample([2, 3, 4, 5, 6, 7, 8, 9, 10, 11, 12], 3)
         op = rng.choice(['?', '?', '!'])
         xa = rng.choice([(op, k1, k2), (op, k1, ('?', k2, None)), (op, ('!', k1, k1), k2), ('?', k1, ('!', None, k2))])
         prog = [(0, 1, rng.choice([0, 1, 2, c - 1, c, c + 1, 9, pr - 1, pr]), None) for _ in range(rng.randint(6, 20))]
@@ -967,6 +994,7 @@ INPUT_TEMPLATES = {
     'pending_return': lambda rng, ai: tmpl_pending_return(rng),
     'label_table': lambda rng, ai: tmpl_label_table(rng),
     'two_labels': lambda rng, ai: tmpl_two_labels(rng),
+    'zoo': lambda rng, ai: tmpl_zoo(rng, ai),
     'big_fraction_output': lambda rng, ai: tmpl_big_fraction_output(rng),
     'first_command_source': lambda rng, ai: tmpl_first_command_source(rng),
     'abandoned_return': lambda rng, ai: tmpl_abandoned_return(rng),
